@@ -7,7 +7,7 @@
 //! recorded, attributed, shrunk and replayable like every other oracle failure. An oracle run is a search for
 //! failing inputs, never evidence that the property holds.
 use crate::colls::*;
-use crate::keys::live_check;
+use crate::keys::{cb_reset, cb_take, live_check, InjectedPanic};
 use crate::rng::Rng;
 use crate::run::*;
 use std::collections::BTreeMap;
@@ -17,7 +17,7 @@ use std::time::{Duration, Instant};
 
 fn s(v: Option<i64>) -> String { match v { Some(x) => x.to_string(), None => "none".into() } }
 
-struct Cfg { universe: i64, len: usize, cap: usize, profile: u32, life: i64, variant: u32 }
+struct Cfg { universe: i64, len: usize, cap: usize, profile: u32, life: i64, variant: u32, inject: bool }
 
 fn cfg_of(h: u64) -> Cfg {
     Cfg {
@@ -27,6 +27,7 @@ fn cfg_of(h: u64) -> Cfg {
         profile: ((h / 3) % 3) as u32,
         life: [4i64, 12, 40, 100][((h / 7) % 4) as usize],
         variant: ((h / 2) % 2) as u32,
+        inject: h % 4 == 1,
     }
 }
 
@@ -61,10 +62,52 @@ fn one_history(coll: &str, cfg: &Cfg, rng: &mut Rng, ops_done: &AtomicU64, rec: 
     }
     // handles held since the last removal (C17): (handle, key)
     let mut held: Vec<(i64, i64)> = Vec::new();
+    // at most one injected callback panic per history (C18), at a random position, in every second history
+    let inj_at: Option<usize> = if cfg.inject { Some(rng.below(cfg.len as u64) as usize) } else { None };
     for i in 0..cfg.len {
         let roll = rng.below(100);
         let k = rng.range(0, u - 1);
         let val = 1000 * (i as i64 + 1) + k % 1000;
+        if inj_at == Some(i) {
+            // an operation that calls user code: insert of an absent key, or (expiring) a lookup, or a delete
+            let mut post = m.clone();
+            let op = if expiring {
+                if rng.chance(1, 2) {
+                    let mut kk = k; let mut guard = 0;
+                    while live(&m, kk, t).is_some() && guard < 8 { kk = (kk + 1) % u; guard += 1; }
+                    if live(&m, kk, t).is_some() { continue; }
+                    let e = t + rng.range(0, cfg.life);
+                    post.insert(kk, (e, val));
+                    Op::new("insert", &[kk, e, val, t])
+                } else { Op::new(["get", "fle", "fl"][rng.below(3) as usize], &[t, rng.range(-1, u)]) }
+            } else if rng.chance(1, 2) && !m.contains_key(&k) { post.insert(k, (0, val)); Op::new("insert", &[k, val]) }
+            else { post.remove(&k); Op::new("delete", &[k]) };
+            let kinj = rng.below(20) as usize;
+            rec.push((Op::new("@inject", &[kinj as i64]), None));
+            rec.push((op.clone(), None));
+            if flush { eprintln!("@op @inject {}", kinj); eprintln!("@op {}", op.text()); }
+            live_check(None);
+            cb_reset(Some(kinj), false);
+            let res = std::panic::catch_unwind(std::panic::AssertUnwindSafe(|| c.apply(&op)));
+            cb_take();
+            n_ops += 1;
+            held.clear();
+            match res {
+                Ok(_) => { let l = rec.len(); rec.remove(l - 2); m = post; }
+                Err(e) if e.is::<InjectedPanic>() => {
+                    let torn = matches!(c.structure(), Some(Err(_))) || c.abs_note().is_some();
+                    let now: Option<Vec<(i64, i64)>> = c.entries().ok().map(|es| es.iter().filter(|x| !expiring || x.2 > t).map(|x| (x.1, x.3)).collect());
+                    let proj = |mm: &BTreeMap<i64, (i64, i64)>| -> Vec<(i64, i64)> { mm.iter().filter(|(_, x)| !expiring || x.0 > t).map(|(k, x)| (*k, x.1)).collect() };
+                    match now {
+                        Some(now) if !torn && now == proj(&post) => { m = post; }
+                        Some(now) if !torn && now == proj(&m) => {}
+                        _ => { ops_done.fetch_add(n_ops, Ordering::Relaxed); return true; }
+                    }
+                }
+                Err(_) => { ops_done.fetch_add(n_ops, Ordering::Relaxed); return true; }
+            }
+            continue;
+        }
         // every 64 operations: shape, colours, links, slot partition (C02, C11)
         if i % 64 == 63 {
             let bad = matches!(c.structure(), Some(Err(_))) || c.abs_note().is_some();
@@ -210,7 +253,16 @@ pub fn fuzz_suite(out: &mut Out, coll: &str, seed: u64, millis: u64) -> (u64, bo
         // (the storage-bound oracle needs the peak population: the quiet replay does not track it; the number of
         // insertions is an upper bound)
         r.refm.peak = ops.iter().filter(|o| o.0.name == "insert").count();
+        let mut pending: Option<usize> = None;
         for (i, (op, ek)) in ops.iter().enumerate() {
+            if op.name == "@inject" { pending = Some(op.a[0] as usize); continue; }
+            if let Some(kinj) = pending.take() {
+                r.oracles = true; r.emit = i == last;
+                let ok = r.step_injected(op, kinj, *ek, true);
+                if !ok || i == last { r.emit = true; break; }
+                r.oracles = false; r.emit = false;
+                continue;
+            }
             if i == last || r.dead {
                 r.oracles = true; r.emit = true;
                 r.step(op, *ek);
